@@ -372,12 +372,15 @@ Definition processReady (s : node) (rd : ready) (busy : bool) : list mop :=
 Definition applied_after (q : list task) (applied : N) : N :=
   fold_left (fun a t => lastApplied (t_ents t) a) q applied.
 
-(* controlCompactLog: waitApplyIdle, then slot.compactLogAt at the slot's applied index.
+(* slot.compactLogAt at the slot's applied index.
+   wait = true : controlCompactLog and the refresh after a configuration change (the worker waits for
+                 the pipeline, waitApplyIdle / the synchronous path);
+   wait = false: the size trigger at the end of runApplyTask (later tasks may be queued).
    (compactLogManually skips the snapshot when the stored one already covers the applied index;
    the model may take it again: same index, same content.) *)
-Definition compactLogAt (s : node) : list mop :=
-  drain (v_queue s) ++
-  (let a := applied_after (v_queue s) (v_applied s) in
+Definition compactLogAt (s : node) (wait : bool) : list mop :=
+  (if wait then drain (v_queue s) else []) ++
+  (let a := if wait then applied_after (v_queue s) (v_applied s) else v_applied s in
    if a =? 0 then [] else [OCompactMark a; OCompactSave a]).
 
 (* Runtime.Close or a killed process: everything volatile is gone; futures that
@@ -405,7 +408,7 @@ Inductive step :=
 | SReady (rd : ready) (busy : bool) (cut : option nat)
 | SApplyTask (cut : option nat)
 | SPropose (cmd : N) (accepted : bool)     (* processControls: rawNode.Propose returned nil / an error *)
-| SCompact (cut : option nat)
+| SCompact (wait : bool) (cut : option nat)
 | SCrash (hard : bool)
 | SRestart.
 
@@ -428,7 +431,7 @@ Definition step_node (st : step) (s : node) : node :=
         if accepted then set_futures (v_submitted s ++ [cmd]) (v_pending s) (v_leader s) (n_futs s) s
         else set_futures (v_submitted s) (v_pending s) (v_leader s) (n_futs s ++ [(cmd, FutErr)]) s
       else s
-  | SCompact cut => if v_up s then exec_cut (compactLogAt s) cut s else s
+  | SCompact wait cut => if v_up s then exec_cut (compactLogAt s wait) cut s else s
   | SCrash hard => crash hard s
   | SRestart => newSlot false s
   end.
@@ -571,11 +574,14 @@ Fixpoint accept (durable : bool) (evs : list event) (a : acc) : bool :=
           match observe_item durable (IMark i) a with
           | Some a1 => accept durable rest (mkAcc (a_log a1) (a_commit a1) (a_snap a1) i (a_sm a1) (a_applying a1) (a_fresh a1) (a_expq a1) (a_up a1) (a_bad a1))
           | None =>
-              (* compactLogAt mirrors the applied index before it saves the snapshot *)
+              (* compactLogAt, pipeline idle: the state machine's owner mirrors the applied index
+                 into Storage before it saves the snapshot (a kill may fall between the two) *)
+              let idle := match a_expq a with [] => true | _ => false end in
+              let a' := mkAcc (a_log a) (a_commit a) (a_snap a) i (a_sm a) (a_applying a) (a_fresh a) (a_expq a) (a_up a) (a_bad a) in
               match rest with
               | EvSave None [] (Some (s, _)) :: _ =>
-                  durable && (s =? i) &&
-                  accept durable rest (mkAcc (a_log a) (a_commit a) (a_snap a) i (a_sm a) (a_applying a) (a_fresh a) (a_expq a) (a_up a) (a_bad a))
+                  durable && idle && (s =? i) && (i =? a_applying a) && accept durable rest a'
+              | EvDown _ :: _ => durable && idle && (i =? a_applying a) && accept durable rest a'
               | _ => false
               end
           end
